@@ -208,6 +208,10 @@ func (counterScenario) Corpus() []Instance {
 		&counterInst{p: counterParams{N: 2, W: s, Pre: []int64{0, s}, Threads: []cThread{{"inc", 5 * s}, {"sum", s}, {"inc", 4 * s}}}},
 		// reset racing an inc and a stale / pre-start stamp
 		&counterInst{p: counterParams{N: 2, W: s, Pre: []int64{0}, Threads: []cThread{{"reset", s}, {"inc", 0}, {"inc", -5}}}},
+		// an Inc between its two adds while its slot is emptied (Reset) and the sum, negative for that moment, is read
+		&counterInst{p: counterParams{N: 2, W: s, Threads: []cThread{{"inc", 0}, {"reset", 0}, {"sum", 0}}}},
+		// the same with the slot emptied by a roll-over (a reader one whole window ahead) and a second reader
+		&counterInst{p: counterParams{N: 1, W: s, Threads: []cThread{{"inc", 0}, {"sum", 2 * s}, {"buckets", 2 * s}}}},
 	}
 }
 
